@@ -31,9 +31,35 @@ type c19Name struct {
 	fetches  atomic.Int32
 	gate     chan struct{}
 	gateOpen atomic.Bool
-	after    atomic.Bool  // the refresh phase is over: later fetches are ordinary misses
-	held     atomic.Int32 // refresh fetches that arrived while the gate was closed
-	serials  sync.Map     // serial -> fetch index
+	after    atomic.Bool     // the refresh phase is over: later fetches are ordinary misses
+	held     atomic.Int32    // refresh fetches that arrived while the gate was closed
+	heldBy   [3]atomic.Int32 // the same, per client group (attributed through the ECS option of the upstream query)
+	serials  sync.Map        // serial -> fetch index
+}
+
+// c19GroupOf attributes an upstream query to a client group through its ECS option (ECS is enabled in this
+// check's proxy; the three groups use three different /24s).
+func c19GroupOf(q *UpQuery) int {
+	if q.Msg.Err != nil {
+		return -1
+	}
+	opt := q.Msg.Opt()
+	if opt == nil {
+		return -1
+	}
+	rd := opt.RDataWire()
+	if len(rd) < 11 || rd[0] != 0 || rd[1] != 8 {
+		return -1
+	}
+	switch {
+	case rd[8] == 127 && rd[9] == 20:
+		return 0
+	case rd[8] == 127 && rd[9] == 21:
+		return 1
+	case rd[8] == 127 && rd[9] == 23:
+		return 2
+	}
+	return -1
 }
 
 func TestVfC19Prefetch(t *testing.T) {
@@ -60,6 +86,9 @@ func TestVfC19Prefetch(t *testing.T) {
 			a := UpAction{}
 			if !n.gateOpen.Load() {
 				n.held.Add(1)
+				if g := c19GroupOf(q); g >= 0 {
+					n.heldBy[g].Add(1)
+				}
 				a.Gate = n.gate
 			}
 			switch n.outcome {
@@ -86,7 +115,7 @@ func TestVfC19Prefetch(t *testing.T) {
 	defer up.Close()
 	pip := block + "10"
 	cfg := &Config{Servers: StdServers(pip, []string{"udp"}, ""), Upstreams: []UpstreamCfg{{Tag: "up", Addr: up.Addr()}}, Rules: []Rule{{Forward: "up"}},
-		Cache: &CacheCfg{MemSize: 64 << 20, IpMarker: "$DIR/marker.txt"}}
+		Cache: &CacheCfg{MemSize: 64 << 20, IpMarker: "$DIR/marker.txt"}, ECS: &ECSCfg{Enabled: true}}
 	p, err := StartProxy(cfg.YAML(), map[string]string{"marker.txt": c07Marker}, ProxyOpts{})
 	if err != nil {
 		t.Fatal(err)
@@ -286,6 +315,15 @@ func TestVfC19Prefetch(t *testing.T) {
 					fail("%s: %d refresh queries in flight at once for %d client groups (burst sizes %v): prefetch is not single-flight", n.label, heldNow, len(n.groups), n.burst)
 					return
 				}
+				var refreshed [3]bool
+				for g := range n.groups {
+					hb := n.heldBy[g].Load()
+					if hb > 1 {
+						fail("%s: %d refresh queries in flight at once for the single client group %d (burst of %d hits): prefetch is not single-flight per (question, group)", n.label, hb, g, n.burst[g])
+						return
+					}
+					refreshed[g] = hb == 1
+				}
 				// 3. after the refresh
 				time.Sleep(400 * time.Millisecond)
 				expiry := lastPrime.Add(time.Duration(n.ttl) * time.Second)
@@ -301,8 +339,8 @@ func TestVfC19Prefetch(t *testing.T) {
 					s, ok := serialOf(r)
 					switch n.outcome {
 					case "success":
-						if heldNow == 0 {
-							continue // no refresh was triggered (allowed: the statement says at most one)
+						if !refreshed[g] {
+							continue // no refresh was started for this group (allowed: the statement says at most one)
 						}
 						idx, _ := n.serials.Load(s)
 						if !ok || s == old[g] || r.Msg.Rcode() != 0 {
